@@ -191,5 +191,5 @@ MANIFEST = {
     "design_ref": "DESIGN.md §4 C15",
     "note": ("proof covers the model's bounds; 'never panics' on the implementation is differential exploration over "
              "generated mutants (stated as such); trusts Coq kernel, extraction, harness allocator"),
-    "technique": "Coq proof of decoder consumption/allocation bounds + differential mutant run (model vs real decoder, metered)",
+    "technique": "Coq proof of decoder consumption/allocation bounds + differential mutant run (model vs real decoder and event-log file iterator, metered; panics caught by the runtime counted through the panic hook)",
 }
